@@ -1,6 +1,7 @@
 import KvarnModel.Drv.Util
 import KvarnModel.Registry
 import KvarnModel.PresentExt
+import KvarnModel.PresentIter
 namespace Drv.C16
 open Wire Drv Registry
 
@@ -24,7 +25,7 @@ def handle : List String → Option String
     pure (match run [] os with | some l => showList l | none => "panic")
   | ["present", h] => do
     let d ← bytesOfHex h
-    pure (match PresentExt.presentParse d with
+    pure (match PresentExt.presentParseIter d with
       | none => "none"
       | some (gs, ds) => s!"ds={ds} {listStr (gs.map showGroup)}")
   -- trace <prime ops> <package ops> <post ops> <prepare: [prio:pred:tag,…]> <single 0|1> <body hex> <internal names [hex,…]>
@@ -42,7 +43,7 @@ def handle : List String → Option String
     let b ← bytesOfHex body
     let known ← parseBytesList names
     -- without a Prepare the (missing) file is answered 404 by the host: no `!> ` line
-    let present := if choice.isNone then [] else match PresentExt.presentParse b with
+    let present := if choice.isNone then [] else match PresentExt.presentParseIter b with
       | none => []
       | some (gs, _) => (gs.filter fun (g : Bytes × List Bytes) => known.contains g.1).map showGroup
     let tr := (runAll lpr).map (fun t => s!"prime{t}") ++ [s!"prepare{optStr toString choice}"] ++
